@@ -472,4 +472,53 @@ def c06(tier):
          'lomond.frame_parser.FrameParser.enable_compression/read_text', 'lomond.frame.CompressedFrame.validate_reserved_bits'])
 
 
-PROPS = {'C06': c06, 'C18': c18, 'C15': c15, 'C16': c16, 'C17': c17, 'C19': c19, 'C10': c10, 'C07': c07, 'C08': c08, 'C09': c09, 'C13': c13, 'C03': c03, 'C02': c02, 'C05': c05, 'C01': c01, 'C04': c04, 'C14': c14}
+SCHED_FUNCS = ['lomond.websocket.WebSocket.send_text/send_binary/send_ping/send_pong/close/_send_close/_on_close',
+               'lomond.session.WebsocketSession.write/send/send_compressed/_send_pong/_check_auto_ping', 'lomond.frame.Frame.build',
+               'lomond.mask.mask_payload', 'lomond.compression.Deflate.compress']
+SCHED_ASSUME = ['real threads under a deterministic baton scheduler; preemption points = source lines of lomond files (sys.settrace) + the middle of sendall; '
+                'bytecode-granularity switches, more than PB preemptions, free-threaded builds and zlib-internal locking are outside',
+                'the schedule is a vector of solver variables explored path by path; z3 decides the data dimension and the wire/decoder obligations per schedule']
+
+
+def sched_spec(name, tags, threads, pb, what, **P):
+    P = dict(P, threads=threads, pb=pb, tags=list(tags), xval_stride=P.get('xval_stride', 17))
+    return Spec(name, 'checks.sched', 'run_sched', P, what='threads %s, <=%d preemptions; %s' % (threads, pb, what), chunk=40)
+
+
+def c11(tier):
+    q = tier == 'quick'
+    tags = ['C11']
+    W = 'wire must decode as whole frames carrying exactly the messages sent, per-thread order preserved'
+    specs = [
+        sched_spec('two-senders', tags, [['send_text'], ['send_binary']], 2, W),
+        sched_spec('sender-vs-loop', tags, [['send_text'], ['pong', 'auto_ping']], 2, W + ' (event loop pong/ping vs application send)'),
+        sched_spec('two-senders-compressed', tags, [['send_text'], ['send_binary']], 1,
+                   W + '; with permessage-deflate and context takeover the reference peer must inflate in wire order',
+                   compress=dict(client_no_takeover=False)),
+    ]
+    if not q:
+        specs += [sched_spec('three-senders', tags, [['send_text'], ['send_binary'], ['send_ping']], 2, W),
+                  sched_spec('two-by-two', tags, [['send_text', 'send_binary'], ['send_binary', 'send_text']], 2, W),
+                  sched_spec('two-senders-pb3', tags, [['send_text'], ['send_binary']], 3, W)]
+    return run_property('C11', tier, specs, 'model_checking', 'concurrent senders never corrupt the wire', ENV_ASSUMPTIONS + SCHED_ASSUME,
+                        SCHED_FUNCS)
+
+
+def c12(tier):
+    q = tier == 'quick'
+    tags = ['C12']
+    W = '<=1 Close frame, no data frame after it, every call returns or raises WebSocketError, a send that raised wrote nothing'
+    specs = [
+        sched_spec('close-vs-send', tags, [['close'], ['send_text']], 2, W),
+        sched_spec('close-vs-close', tags, [['close'], ['close2']], 2, W),
+        sched_spec('server-close-vs-send', tags, [['server_close'], ['send_binary']], 2, W + ' (loop echoing a server Close vs application send)'),
+        sched_spec('close-vs-loop', tags, [['close'], ['pong', 'auto_ping']], 2, W),
+        sched_spec('server-close-vs-close', tags, [['server_close'], ['close']], 2, W),
+    ]
+    if not q:
+        specs += [sched_spec('close-send-send', tags, [['close'], ['send_text'], ['send_binary']], 2, W),
+                  sched_spec('close-vs-send-pb3', tags, [['close'], ['send_text', 'send_ping']], 3, W)]
+    return run_property('C12', tier, specs, 'model_checking', 'close() atomic w.r.t. other threads', ENV_ASSUMPTIONS + SCHED_ASSUME, SCHED_FUNCS)
+
+
+PROPS = {'C11': c11, 'C12': c12, 'C06': c06, 'C18': c18, 'C15': c15, 'C16': c16, 'C17': c17, 'C19': c19, 'C10': c10, 'C07': c07, 'C08': c08, 'C09': c09, 'C13': c13, 'C03': c03, 'C02': c02, 'C05': c05, 'C01': c01, 'C04': c04, 'C14': c14}
